@@ -28,6 +28,7 @@ use crate::cpc::compression_data::LENGTH_LIMITED_UNARY_ENCODING_TABLE65;
 use crate::cpc::determine_correct_offset;
 use crate::cpc::determine_flavor;
 use crate::cpc::pair_table::PairTable;
+use crate::error::Error;
 
 #[derive(Default)]
 pub(super) struct CompressedState {
@@ -355,12 +356,60 @@ pub(super) struct UncompressedState {
 }
 
 impl CompressedState {
-    pub fn uncompress(&self, lg_k: u8, num_coupons: u32) -> UncompressedState {
+    /// Checks that the sections present in an image are the ones its flavor requires and that
+    /// the declared sizes are plausible for the data that follows, so that decompression can
+    /// neither index past its input nor allocate out of proportion to it.
+    pub fn check_sections(
+        &self,
+        lg_k: u8,
+        num_coupons: u32,
+        has_table: bool,
+        has_window: bool,
+    ) -> Result<(), Error> {
+        let k = 1u64 << lg_k;
+        let flavor = determine_flavor(lg_k, num_coupons);
+        let (need_table, need_window) = match flavor {
+            Flavor::Empty => (false, false),
+            Flavor::Sparse | Flavor::Hybrid => (true, false),
+            // a windowed sketch may have no surprising values at all
+            Flavor::Pinned | Flavor::Sliding => (has_table, true),
+        };
+        if has_table != need_table || has_window != need_window {
+            return Err(Error::deserial(format!(
+                "sections (table: {has_table}, window: {has_window}) do not match flavor {flavor:?}"
+            )));
+        }
+        if determine_correct_offset(lg_k, num_coupons) > 56 {
+            return Err(Error::deserial(format!(
+                "num_coupons {num_coupons} is impossible for lg_k {lg_k}"
+            )));
+        }
+        if has_table {
+            // every pair takes at least two bits of the stream
+            let max_pairs = (self.table_data_words as u64) * 16;
+            if self.table_num_entries == 0 || self.table_num_entries as u64 > max_pairs {
+                return Err(Error::deserial(format!(
+                    "{} surprising values cannot be stored in {} words",
+                    self.table_num_entries, self.table_data_words
+                )));
+            }
+        }
+        if has_window && (self.window_data_words as u64) * 32 < k {
+            // every window byte takes at least one bit of the stream
+            return Err(Error::deserial(format!(
+                "a window of {k} bytes cannot be stored in {} words",
+                self.window_data_words
+            )));
+        }
+        Ok(())
+    }
+
+    pub fn uncompress(&self, lg_k: u8, num_coupons: u32) -> Result<UncompressedState, Error> {
         match determine_flavor(lg_k, num_coupons) {
-            Flavor::Empty => UncompressedState {
+            Flavor::Empty => Ok(UncompressedState {
                 table: PairTable::new(2, lg_k + 6),
                 window: vec![],
-            },
+            }),
             Flavor::Sparse => self.uncompress_sparse_flavor(lg_k),
             Flavor::Hybrid => self.uncompress_hybrid_flavor(lg_k),
             Flavor::Pinned => self.uncompress_pinned_flavor(lg_k, num_coupons),
@@ -368,7 +417,7 @@ impl CompressedState {
         }
     }
 
-    fn uncompress_sparse_flavor(&self, lg_k: u8) -> UncompressedState {
+    fn uncompress_sparse_flavor(&self, lg_k: u8) -> Result<UncompressedState, Error> {
         debug_assert!(self.window_data.is_empty(), "window is not expected");
         debug_assert!(!self.table_data.is_empty(), "table is expected");
 
@@ -377,15 +426,15 @@ impl CompressedState {
             self.table_data_words,
             self.table_num_entries,
             lg_k,
-        );
+        )?;
 
-        UncompressedState {
+        Ok(UncompressedState {
             table: PairTable::from_slots(lg_k, self.table_num_entries, pairs),
             window: vec![],
-        }
+        })
     }
 
-    fn uncompress_hybrid_flavor(&self, lg_k: u8) -> UncompressedState {
+    fn uncompress_hybrid_flavor(&self, lg_k: u8) -> Result<UncompressedState, Error> {
         debug_assert!(self.window_data.is_empty(), "window is not expected");
         debug_assert!(!self.table_data.is_empty(), "table is expected");
 
@@ -394,7 +443,7 @@ impl CompressedState {
             self.table_data_words,
             self.table_num_entries,
             lg_k,
-        );
+        )?;
 
         // In the hybrid flavor, some of these pairs actually belong in the window, so we will
         // separate them out, moving the "true" pairs to the bottom of the array.
@@ -414,13 +463,17 @@ impl CompressedState {
             }
         }
 
-        UncompressedState {
+        Ok(UncompressedState {
             table: PairTable::from_slots(lg_k, next_true_pair, pairs),
             window,
-        }
+        })
     }
 
-    fn uncompress_pinned_flavor(&self, lg_k: u8, num_coupons: u32) -> UncompressedState {
+    fn uncompress_pinned_flavor(
+        &self,
+        lg_k: u8,
+        num_coupons: u32,
+    ) -> Result<UncompressedState, Error> {
         debug_assert!(!self.window_data.is_empty(), "window is expected");
 
         let mut window = vec![];
@@ -430,7 +483,7 @@ impl CompressedState {
             &mut window,
             lg_k,
             num_coupons,
-        );
+        )?;
         let num_pairs = self.table_num_entries;
         let table = if num_pairs == 0 {
             PairTable::new(2, lg_k + 6)
@@ -441,23 +494,28 @@ impl CompressedState {
                 self.table_data_words,
                 num_pairs,
                 lg_k,
-            );
+            )?;
             // undo the compressor's 8-column shift
             for i in 0..num_pairs {
                 let i = i as usize;
-                assert!(
-                    (pairs[i] & 63) < 56,
-                    "pair column index is invalid: {}",
-                    pairs[i]
-                );
+                if (pairs[i] & 63) >= 56 {
+                    return Err(Error::deserial(format!(
+                        "pair column index is invalid: {}",
+                        pairs[i]
+                    )));
+                }
                 pairs[i] += 8;
             }
             PairTable::from_slots(lg_k, num_pairs, pairs)
         };
-        UncompressedState { table, window }
+        Ok(UncompressedState { table, window })
     }
 
-    fn uncompress_sliding_flavor(&self, lg_k: u8, num_coupons: u32) -> UncompressedState {
+    fn uncompress_sliding_flavor(
+        &self,
+        lg_k: u8,
+        num_coupons: u32,
+    ) -> Result<UncompressedState, Error> {
         debug_assert!(!self.window_data.is_empty(), "window is expected");
 
         let mut window = vec![];
@@ -467,7 +525,7 @@ impl CompressedState {
             &mut window,
             lg_k,
             num_coupons,
-        );
+        )?;
         let num_pairs = self.table_num_entries;
         let table = if num_pairs == 0 {
             PairTable::new(2, lg_k + 6)
@@ -478,17 +536,24 @@ impl CompressedState {
                 self.table_data_words,
                 num_pairs,
                 lg_k,
-            );
+            )?;
             let pseudo_phase = determine_pseudo_phase(lg_k, num_coupons);
             let permutation = &COLUMN_PERMUTATIONS_FOR_DECODING[pseudo_phase as usize];
             let offset = determine_correct_offset(lg_k, num_coupons);
-            assert!(offset <= 56, "offset is invalid: {offset}");
+            if offset > 56 {
+                return Err(Error::deserial(format!("offset is invalid: {offset}")));
+            }
 
             for i in 0..num_pairs {
                 let i = i as usize;
                 let row_col = pairs[i];
                 let row = row_col >> 6;
                 let mut col = (row_col & 63) as u8;
+                if col >= 56 {
+                    return Err(Error::deserial(format!(
+                        "pair column index is invalid: {row_col}"
+                    )));
+                }
                 // first undo the permutation
                 col = permutation[col as usize];
                 // then undo the rotation: old = (new + (offset+8)) mod 64
@@ -498,7 +563,7 @@ impl CompressedState {
 
             PairTable::from_slots(lg_k, num_pairs, pairs)
         };
-        UncompressedState { table, window }
+        Ok(UncompressedState { table, window })
     }
 }
 
@@ -507,12 +572,16 @@ fn uncompress_surprising_values(
     data_words: usize,
     num_pairs: u32,
     lg_k: u8,
-) -> Vec<u32> {
+) -> Result<Vec<u32>, Error> {
     let k = 1 << lg_k;
     let mut pairs = vec![0; num_pairs as usize];
     let num_base_bits = golomb_choose_number_of_base_bits(k + num_pairs, num_pairs as u64);
-    low_level_uncompress_pairs(&mut pairs, num_pairs, num_base_bits, data, data_words);
-    pairs
+    let in_bounds =
+        low_level_uncompress_pairs(&mut pairs, num_pairs, num_base_bits, data, data_words, k);
+    if !in_bounds {
+        return Err(Error::deserial("corrupted surprising-value stream"));
+    }
+    Ok(pairs)
 }
 
 fn uncompress_sliding_window(
@@ -521,26 +590,32 @@ fn uncompress_sliding_window(
     window: &mut Vec<u8>,
     lg_k: u8,
     num_coupons: u32,
-) {
+) -> Result<(), Error> {
     let k = 1 << lg_k;
     window.resize(k, 0);
     let pseudo_phase = determine_pseudo_phase(lg_k, num_coupons);
-    low_level_uncompress_bytes(
+    let in_bounds = low_level_uncompress_bytes(
         window,
         k as u32,
         data,
         data_words,
         &DECODING_TABLES_FOR_HIGH_ENTROPY_BYTE[pseudo_phase as usize],
     );
+    if !in_bounds {
+        return Err(Error::deserial("corrupted window stream"));
+    }
+    Ok(())
 }
 
+/// Returns false if the stream ran past its end or produced a pair outside the k x 64 matrix.
 fn low_level_uncompress_pairs(
     pairs: &mut [u32],
     num_pairs_to_decode: u32,
     num_base_bits: u8,
     compressed_words: &[u32],
     num_compressed_words: usize,
-) {
+    k: u32,
+) -> bool {
     let mut word_index = 0;
     let mut bitbuf = 0;
     let mut bufbits = 0;
@@ -581,33 +656,36 @@ fn low_level_uncompress_pairs(
         let golomb_lo = bitbuf & golomb_lo_mask;
         bitbuf >>= num_base_bits;
         bufbits -= num_base_bits;
-        let y_delta = ((golomb_hi << num_base_bits) | golomb_lo) as u32;
+        let y_delta = (golomb_hi << num_base_bits) | golomb_lo;
 
         // Now that we have x_delta and y_delta, we can compute the pair's row and column
         if y_delta > 0 {
             predicted_col_index = 0;
         }
-        let row_index = predicted_row_index + y_delta;
-        let col_index = predicted_col_index + x_delta;
+        let row_index = predicted_row_index as u64 + y_delta;
+        let col_index = predicted_col_index as u32 + x_delta as u32;
+        if row_index >= k as u64 || col_index > 63 || word_index > num_compressed_words {
+            return false;
+        }
+        let row_index = row_index as u32;
+        let col_index = col_index as u8;
         let row_col = (row_index << 6) | (col_index as u32);
         pairs[pair_index as usize] = row_col;
         predicted_row_index = row_index;
         predicted_col_index = col_index + 1;
     }
 
-    debug_assert!(
-        word_index <= num_compressed_words,
-        "word_index: {word_index}, num_compressed_words: {num_compressed_words}",
-    );
+    word_index <= num_compressed_words
 }
 
+/// Returns false if the stream ran past its end.
 fn low_level_uncompress_bytes(
     byte_array: &mut [u8],
     num_bytes_to_decode: u32,
     compressed_words: &[u32],
     num_compressed_words: usize,
     decoding_table: &[u16],
-) {
+) -> bool {
     let mut word_index = 0;
     let mut bitbuf = 0;
     let mut bufbits = 0;
@@ -631,11 +709,8 @@ fn low_level_uncompress_bytes(
         bufbits -= code_word_length;
     }
 
-    // Buffer over-run should be impossible unless there is a bug.
-    debug_assert!(
-        word_index <= num_compressed_words,
-        "word_index: {word_index}, num_compressed_words: {num_compressed_words}",
-    );
+    // Buffer over-run is impossible for a well-formed stream.
+    word_index <= num_compressed_words
 }
 
 fn determine_pseudo_phase(lg_k: u8, num_coupons: u32) -> u8 {
@@ -722,6 +797,10 @@ fn read_unary(
         subtotal += 8;
         *bufbits -= 8;
         *bitbuf >>= 8;
+        if *next_word_index > compressed_words.len() {
+            // ran past the end of a corrupted stream (reported by the caller)
+            return subtotal;
+        }
     }
 }
 
@@ -747,7 +826,10 @@ fn maybe_fill_bitbuf(
     minbits: u8,
 ) {
     if *bufbits < minbits {
-        *bitbuf |= (words[*word_index] as u64) << *bufbits;
+        // Past the end of a corrupted stream zeros are supplied; the index keeps counting so
+        // that the caller can detect the over-run.
+        let word = words.get(*word_index).copied().unwrap_or(0);
+        *bitbuf |= (word as u64) << *bufbits;
         *word_index += 1;
         *bufbits += 32;
     }
